@@ -153,3 +153,446 @@ def _glob_matches(E, ci, p, s):
 @model('glob::Pattern::as_str')
 def _glob_as_str(E, ci, p):
     return deref(p).original.view()
+
+
+# ============================================================================ serde glue (scanindex)
+@model('StrDeserializer::new')
+def _strdeser_new(E, ci, s):
+    return Obj('StrDeserializer', s=as_slice(s))
+
+
+@model('Deserializer::deserialize_str', 'Deserializer::deserialize_string', 'Deserializer::deserialize_any')
+def _deserialize_str(E, ci, d, visitor):
+    d = deref(d)
+    if not (isinstance(d, Obj) and d.kind == 'StrDeserializer'):
+        raise ModelGap('deserialize_str on ' + repr(d))
+    v = deref(visitor)
+    ty = v.ty if isinstance(v, Agg) else None
+    cands = E.prog.index.get((ty, 'Visitor', 'visit_str'))
+    if not cands:
+        raise ModelGap('no visit_str for ' + repr(v))
+    return E.call_fn(cands[0], [visitor, d.s], ci)
+
+
+def _serde_err(items):
+    return Obj('serde::Error', msg=list(items))
+
+
+@model('Error::missing_field')
+def _missing_field(E, ci, name):
+    return _serde_err(lit('missing field `') + list(items_of(name)) + lit('`'))
+
+
+@model('Error::custom')
+def _serde_custom(E, ci, msg):
+    from .models_fmt import display_to_items
+    return _serde_err(display_to_items(E, msg))
+
+
+@model('<serde::Error as Display>::fmt')
+def _serde_err_display(E, ci, e, f):
+    deref(f).write(E, list(deref(e).msg))
+    return ok(UNIT)
+
+
+# ============================================================================ readers / writers
+class SliceReader(Obj):
+    """`&[u8]` used as Read / BufRead"""
+
+    def __init__(self, s):
+        self.kind = 'SliceReader'
+        self.s = s
+        self.pos = 0
+
+    def fill_buf(self, E):
+        return ok(self.s.sub(self.pos, len(self.s)))
+
+    def consume(self, E, n):
+        self.pos += n
+
+    def read(self, E, buf):
+        n = min(len(buf), len(self.s) - self.pos)
+        for i in range(n):
+            buf.buf[buf.a + i] = self.s.buf[self.s.a + self.pos + i]
+        self.pos += n
+        return ok(USZ(n))
+
+
+class BufReaderObj(Obj):
+    """std::io::BufReader<R>: fill_buf issues one inner read into an 8 KiB buffer when empty"""
+    CAP = 64     # model capacity: data sets in the harnesses are far smaller than this
+
+    def __init__(self, inner):
+        self.kind = 'BufReader'
+        self.inner = inner
+        self.buf = []
+        self.pos = 0
+
+    def fill_buf(self, E):
+        if self.pos >= len(self.buf):
+            scratch = [U8(0) for _ in range(self.CAP)]
+            r = reader_read(E, self.inner, Slice(scratch, 0, self.CAP, 'slice'))
+            if r.variant == 1:
+                return r
+            n = E.concretize(r.fields[0])
+            if n > self.CAP:
+                raise Panic('reader returned more than the buffer length')
+            self.buf = scratch[:n]
+            self.pos = 0
+        return ok(Slice(self.buf, self.pos, len(self.buf), 'slice'))
+
+    def consume(self, E, n):
+        self.pos = min(self.pos + n, len(self.buf))
+
+    def read(self, E, buf):
+        r = self.fill_buf(E)
+        if r.variant == 1:
+            return r
+        av = r.fields[0]
+        n = min(len(av), len(buf))
+        for i in range(n):
+            buf.buf[buf.a + i] = av.buf[av.a + i]
+        self.consume(E, n)
+        return ok(USZ(n))
+
+
+def _reader_obj(E, r):
+    """normalise a reader argument (by value or &mut) to (python object | crate value ref)"""
+    v = deref(r)
+    if isinstance(v, (SliceReader, BufReaderObj)):
+        return v
+    if isinstance(v, Slice):
+        # a `&[u8]` reader held in a slot: replace the slot content by a stateful reader
+        sr = SliceReader(v)
+        x = r
+        while isinstance(x, Ref) and isinstance(x.get(), Ref):
+            x = x.get()
+        if isinstance(x, Ref):
+            x.set(sr)
+        return sr
+    return None
+
+
+def _crate_call(E, r, trait, method, args):
+    v = deref(r)
+    ty = v.ty if isinstance(v, Agg) else getattr(v, 'kind', None)
+    cands = E.prog.index.get((ty, trait, method))
+    if not cands:
+        raise ModelGap(f'no {trait}::{method} for {v!r}')
+    x = r
+    while isinstance(x, Ref) and isinstance(x.get(), Ref):
+        x = x.get()
+    if not isinstance(x, Ref):
+        x = Ref([v], 0)
+    return E.call_fn(cands[0], [x] + args, None)
+
+
+def reader_read(E, r, buf):
+    o = _reader_obj(E, r)
+    if o is not None:
+        return o.read(E, buf)
+    v = deref(r)
+    if isinstance(v, Obj) and v.kind == 'File':
+        return v.read(E, buf)
+    return _crate_call(E, r, 'Read', 'read', [buf])
+
+
+def reader_fill_buf(E, r):
+    o = _reader_obj(E, r)
+    if o is not None:
+        return o.fill_buf(E)
+    return _crate_call(E, r, 'BufRead', 'fill_buf', [])
+
+
+def reader_consume(E, r, n):
+    o = _reader_obj(E, r)
+    if o is not None:
+        return o.consume(E, n)
+    return _crate_call(E, r, 'BufRead', 'consume', [USZ(n)])
+
+
+def is_interrupted(E, e):
+    e = deref(e)
+    k = e.fields[0]
+    return k.variant == E.prog.enums['ErrorKind']['Interrupted']
+
+
+def read_until(E, r, delim):
+    """std::io::read_until: -> ('ok', [bytes]) | ('err', e); retries on Interrupted"""
+    out = []
+    while True:
+        fr = reader_fill_buf(E, r)
+        if fr.variant == 1:
+            if is_interrupted(E, fr.fields[0]):
+                continue
+            return 'err', fr.fields[0], out
+        av = as_slice(fr.fields[0])
+        n = len(av)
+        found = None
+        for i in range(n):
+            if E.branch(i_eq(av.buf[av.a + i], delim)):
+                found = i
+                break
+        if found is not None:
+            out += av.items()[:found + 1]
+            reader_consume(E, r, found + 1)
+            return 'ok', None, out
+        out += av.items()
+        reader_consume(E, r, n)
+        if n == 0:
+            return 'ok', None, out
+
+
+class LinesIter(Iter):
+    def __init__(self, r, mode, delim=None):
+        self.r = r
+        self.mode = mode     # 'lines' | 'split'
+        self.delim = delim
+
+    def next(self, E):
+        from .models import utf8_valid_prefix
+        if self.mode == 'lines':
+            st, e, out = read_until(E, self.r, U8(10))
+            if st == 'err':
+                return some(err(e))
+            if not out:
+                return none()
+            good, _ = utf8_valid_prefix(E, out)
+            if not good:
+                from .models_io import io_error
+                return some(err(io_error(E, 'InvalidData', Slice(lit('stream did not contain valid UTF-8'), 0, 34, 'str'))))
+            if E.branch(i_eq(out[-1], U8(10))):
+                out.pop()
+                if out and E.branch(i_eq(out[-1], U8(13))):
+                    out.pop()
+            return some(ok(VecV(out, 'String')))
+        st, e, out = read_until(E, self.r, self.delim)
+        if st == 'err':
+            return some(err(e))
+        if not out:
+            return none()
+        if E.branch(i_eq(out[-1], self.delim)):
+            out.pop()
+        return some(ok(VecV(out, 'Vec')))
+
+
+@model('BufRead::lines')
+def _bufread_lines(E, ci, r):
+    if isinstance(deref(r), Slice):
+        r = Ref([SliceReader(deref(r))], 0)
+    elif not isinstance(r, Ref):
+        r = Ref([r], 0)
+    return LinesIter(r, 'lines')
+
+
+@model('BufRead::split')
+def _bufread_split(E, ci, r, d):
+    if isinstance(deref(r), Slice):
+        r = Ref([SliceReader(deref(r))], 0)
+    elif not isinstance(r, Ref):
+        r = Ref([r], 0)
+    return LinesIter(r, 'split', d)
+
+
+@model('BufReader::new', 'BufReader::with_capacity')
+def _bufreader_new(E, ci, *a):
+    inner = a[-1]
+    if isinstance(inner, Slice):
+        inner = Ref([SliceReader(inner)], 0)
+    elif not isinstance(inner, Ref):
+        inner = Ref([inner], 0)
+    return BufReaderObj(inner)
+
+
+@model('Read::read')
+def _read_read(E, ci, r, buf):
+    return reader_read(E, r, as_slice(buf))
+
+
+@model('BufRead::fill_buf')
+def _bufread_fill_buf(E, ci, r):
+    return reader_fill_buf(E, r)
+
+
+@model('BufRead::consume')
+def _bufread_consume(E, ci, r, n):
+    reader_consume(E, r, E.concretize(n))
+    return UNIT
+
+
+def read_all(E, r):
+    """default_read_to_end: loop read until Ok(0); retry on Interrupted"""
+    out = []
+    while True:
+        scratch = [U8(0) for _ in range(32)]
+        rr = reader_read(E, r, Slice(scratch, 0, 32, 'slice'))
+        if rr.variant == 1:
+            if is_interrupted(E, rr.fields[0]):
+                continue
+            return 'err', rr.fields[0], out
+        n = E.concretize(rr.fields[0])
+        if n == 0:
+            return 'ok', None, out
+        if n > 32:
+            raise Panic('reader returned more than the buffer length')
+        out += scratch[:n]
+
+
+@model('Read::read_to_end')
+def _read_to_end(E, ci, r, v):
+    st, e, out = read_all(E, r)
+    deref(v).buf.extend(out)
+    if st == 'err':
+        return err(e)
+    return ok(USZ(len(out)))
+
+
+@model('Read::read_to_string')
+def _read_to_string(E, ci, r, v):
+    from .models import utf8_valid_prefix
+    from .models_io import io_error
+    st, e, out = read_all(E, r)
+    if st == 'err':
+        return err(e)
+    good, _ = utf8_valid_prefix(E, out)
+    if not good:
+        return err(io_error(E, 'InvalidData', Slice(lit('stream did not contain valid UTF-8'), 0, 34, 'str')))
+    deref(v).buf.extend(out)
+    return ok(USZ(len(out)))
+
+
+def writer_write_all(E, w, items):
+    v = deref(w)
+    if isinstance(v, VecV):
+        v.buf.extend(items)
+        return ok(UNIT)
+    if isinstance(v, Obj) and v.kind == 'Hasher':
+        v.data.extend(items)
+        return ok(UNIT)
+    # crate type implementing io::Write: write() may be partial
+    pos = 0
+    while pos < len(items):
+        r = _crate_call(E, w, 'Write', 'write', [Slice(items, pos, len(items), 'slice')])
+        if r.variant == 1:
+            if is_interrupted(E, r.fields[0]):
+                continue
+            return r
+        n = E.concretize(r.fields[0])
+        if n == 0:
+            from .models_io import io_error
+            return err(io_error(E, 'WriteZero', Slice(lit('failed to write whole buffer'), 0, 28, 'str')))
+        pos += n
+    return ok(UNIT)
+
+
+@model('io::copy')
+def _io_copy(E, ci, r, w):
+    total = 0
+    while True:
+        scratch = [U8(0) for _ in range(32)]
+        rr = reader_read(E, r, Slice(scratch, 0, 32, 'slice'))
+        if rr.variant == 1:
+            if is_interrupted(E, rr.fields[0]):
+                continue
+            return rr
+        n = E.concretize(rr.fields[0])
+        if n == 0:
+            return ok(I('u64', total))
+        if n > 32:
+            raise Panic('reader returned more than the buffer length')
+        wr = writer_write_all(E, w, scratch[:n])
+        if wr.variant == 1:
+            return wr
+        total += n
+
+
+@model('Write::write_all')
+def _write_all(E, ci, w, buf):
+    return writer_write_all(E, w, list(items_of(buf)))
+
+
+@model('Write::write')
+def _write_write(E, ci, w, buf):
+    v = deref(w)
+    items = list(items_of(buf))
+    if isinstance(v, VecV) or (isinstance(v, Obj) and v.kind == 'Hasher'):
+        writer_write_all(E, w, items)
+        return ok(USZ(len(items)))
+    return _crate_call(E, w, 'Write', 'write', [as_slice(buf)])
+
+
+@model('Write::flush')
+def _write_flush(E, ci, w):
+    v = deref(w)
+    if isinstance(v, (VecV, Obj)):
+        return ok(UNIT)
+    return _crate_call(E, w, 'Write', 'flush', [])
+
+
+# ============================================================================ digests (uninterpreted)
+HASHERS = {'Blake2s256': ('BLAKE2s', 32), 'Md5': ('MD5', 16), 'Ripemd160': ('RMD160', 20), 'Sha1': ('SHA1', 20),
+           'Sha256': ('SHA256', 32), 'Sha512': ('SHA512', 64),
+           'Blake2sVar': ('BLAKE2s', 32), 'CoreWrapper': (None, None)}
+ALG_BY_INDEX = ['BLAKE2s', 'MD5', 'RMD160', 'SHA1', 'SHA256', 'SHA512']
+ALG_LEN = {'BLAKE2s': 32, 'MD5': 16, 'RMD160': 20, 'SHA1': 20, 'SHA256': 32, 'SHA512': 64}
+
+
+def digest_bytes(E, alg, data):
+    """output bytes of the (uninterpreted) hash function alg over the scalar list data"""
+    n = len(data)
+    olen = ALG_LEN[alg]
+    if all(b.conc() for b in data) and getattr(E, 'concrete_digests', True):
+        import hashlib
+        raw = bytes(b.v for b in data)
+        name = {'BLAKE2s': 'blake2s', 'MD5': 'md5', 'RMD160': 'ripemd160', 'SHA1': 'sha1', 'SHA256': 'sha256',
+                'SHA512': 'sha512'}[alg]
+        try:
+            return lit(hashlib.new(name, raw).digest())
+        except Exception:
+            pass
+    out = []
+    args = [b.z() for b in data]
+    for j in range(olen):
+        key = (alg, n, j)
+        f = E.ufs.get(key)
+        if f is None:
+            f = z3.Function(f'H_{alg}_{n}_{j}', *([z3.BitVecSort(8)] * n + [z3.BitVecSort(8)])) if n else \
+                z3.BitVec(f'H_{alg}_0_{j}', 8)
+            E.ufs[key] = f
+        out.append(I('u8', f(*args) if n else f))
+    return out
+
+
+def hasher_type(E, ci, fr):
+    """which RustCrypto hasher does the generic parameter stand for"""
+    cands = []
+    t = ci.self_ty or ''
+    for src in [t] + (list(fr.ci.targs) if fr is not None and fr.ci is not None else []):
+        tl = type_last(src)
+        if tl in HASHERS and HASHERS[tl][0]:
+            cands.append(HASHERS[tl][0])
+        elif 'Blake2s' in src:
+            cands.append('BLAKE2s')
+    if len(cands) != 1:
+        raise ModelGap(f'cannot determine digest type for {ci.raw}: {cands}')
+    return cands[0]
+
+
+@model('Digest::finalize')
+def _digest_finalize(E, ci, h):
+    h = deref(h)
+    return VecV(digest_bytes(E, h.alg, h.data), 'GenericArray')
+
+
+@model('Digest::update', 'Update::update')
+def _digest_update(E, ci, h, data):
+    deref(h).data.extend(items_of(data))
+    return UNIT
+
+
+@model('<GenericArray as Deref>::deref', 'GenericArray::as_slice', 'GenericArray::iter')
+def _ga_deref(E, ci, g):
+    if ci.method == 'iter':
+        s = as_slice(g)
+        return ListIter([Ref(s.buf, s.a + i) for i in range(len(s))])
+    return as_slice(g)
